@@ -14,18 +14,7 @@ def field? : String → Option FieldImpl
   | _ => none
 
 /-- the code's field operations on raw words -/
-def ops (F : FieldImpl) : Ops Nat where
-  zero := F.new 0
-  one := F.new 1
-  add := F.add
-  sub := F.sub
-  mul := F.mul
-  pow := F.exp
-  div := fun a b => match F.div a b with
-    | .done r => some r
-    | .out => none
-  ofNat := F.new
-  root := F.rootOfUnity
+def ops (F : FieldImpl) : Ops Nat := rawOps F
 
 def HP : Nat := 2305843009213693951
 
